@@ -91,8 +91,10 @@ def rintFallback (f : Fmt) (b : Nat) : Except Err Nat :=
     let wf := f.ofInt w
     let frac := f.sub b wf
     let result :=
-      if f.lt (half f) frac || (f.feq frac (half f) && w % 2 != 0) then f.ofInt (w + 1)
-      else if f.lt frac (f.neg (half f)) || (f.feq frac (f.neg (half f)) && w % 2 != 0) then f.ofInt (w - 1)
+      -- `static_cast<T>(whole) + T(1)` / `- T(1)`: the step is taken in T since 21f1c9f (`whole + 1` overflowed `long long`
+      -- for a long double just below 2^63)
+      if f.lt (half f) frac || (f.feq frac (half f) && w % 2 != 0) then f.add wf (f.ofInt 1)
+      else if f.lt frac (f.neg (half f)) || (f.feq frac (f.neg (half f)) && w % 2 != 0) then f.sub wf (f.ofInt 1)
       else wf
     if f.feq result 0 && f.lt b 0 then .ok (f.neg 0)
     else .ok (if f.feq result 0 && f.feq b 0 then b else result)
@@ -115,6 +117,70 @@ def signbitFallback (f : Fmt) (b : Nat) : Bool := b / f.signW != 0
 
 /-- the constant-evaluated path of `fma`: `x * y + z` in two roundings -/
 def fmaTwoStep (f : Fmt) (x y z : Nat) : Nat := f.add (f.mul x y) z
+
+/-! ### constant evaluation that takes the run-time builtin (GCC folds it): fma, sqrt
+
+`__builtin_fma{f,}` and `__builtin_sqrt{f,,l}` are folded by GCC's constant evaluator through MPFR
+(gcc/fold-const-call.cc `do_mpfr_arg1/arg3`, `do_mpfr_ckconv`): every argument finite (sqrt: not negative), the
+function evaluated exactly and rounded to nearest even at the precision of the type with MPFR's (practically
+unbounded) exponent range, and the call folded only if that value is a finite value of the type ("result is not
+changed by the conversion", zero only from an exact zero).  `representable` is that condition; the folded value is
+then the correctly rounded one (the builtin is modelled by its specification). -/
+
+/-- `N >> d` rounded to nearest even -/
+def rneShift (N d : Nat) : Nat :=
+  let q := N / 2 ^ d
+  let rem := N % 2 ^ d
+  let half := 2 ^ (d - 1)
+  if d = 0 then N else if rem > half || (rem == half && q % 2 == 1) then q + 1 else q
+
+/-- is the magnitude `N · 2^E` units, rounded to nearest even at `mbits + 1` significant bits with an unbounded
+    exponent range, a finite value of the format?  (normal range: not an overflow; below it: a whole number of
+    units, i.e. the precision-`mbits+1` rounding did not keep bits a subnormal cannot hold) -/
+def representable (f : Fmt) (N : Nat) (E : Int) : Bool :=
+  if N = 0 then true else
+  let k : Int := (Nat.log2 N : Int) + E
+  if k ≥ (f.mbits : Int) then decide (f.roundUnits N E < f.inf)
+  else
+    let d : Int := (Nat.log2 N : Int) - (f.mbits : Int)      -- low bits of N beyond the precision
+    let q := if d ≤ 0 then N * 2 ^ (-d).toNat else rneShift N d.toNat
+    let e : Int := E + d                                     -- rounded value = q · 2^e units
+    if e ≥ 0 then true else decide (q % 2 ^ (-e).toNat = 0)
+
+/-- does GCC fold `__builtin_fma(x, y, z)` in a constant expression? -/
+def gccFoldsFma (f : Fmt) (x y z : Nat) : Bool :=
+  f.isFinite x && f.isFinite y && f.isFinite z &&
+  (let s := (f.sign x + f.sign y) % 2
+   let p : Int := (f.mag x * f.mag y : Nat)
+   let p := if s = 1 then -p else p
+   let c : Int := (f.mag z * 2 ^ f.U : Nat)
+   let c := if f.sign z = 1 then -c else c
+   representable f (p + c).natAbs (-(f.U : Int)))
+
+/-- [expr.const]: an arithmetic operation whose result is not mathematically defined (inf·0, inf−inf) or not in the
+    range of representable values (overflow of finite operands) is undefined behaviour, hence *not a constant
+    expression* (GCC: "overflow in constant expression", "is not a constant expression"); underflow is accepted -/
+def ceOp (f : Fmt) (a b r : Nat) : Except Err Nat :=
+  if (!f.isNaN a && !f.isNaN b && f.isNaN r) || (f.isFinite a && f.isFinite b && !f.isFinite r) then
+    .error (.pre "not-a-constant-expression")
+  else .ok r
+
+/-- `x * y + z` as the constant evaluator computes it: two roundings, each operation checked -/
+def fmaTwoStepCE (f : Fmt) (x y z : Nat) : Except Err Nat := do
+  let p ← ceOp f x y (f.mul x y)
+  ceOp f p z (f.add p z)
+
+/-- the constant-evaluated path of `fma` since 2d96e3e:
+    `if (__builtin_constant_p(__builtin_fma(x, y, z))) return __builtin_fma(x, y, z); return x * y + z;` -/
+def fmaCt (f : Fmt) (x y z : Nat) : Except Err Nat :=
+  if gccFoldsFma f x y z then .ok (f.fma x y z) else fmaTwoStepCE f x y z
+
+/-- the constant-evaluated path of `sqrt` since 55139da: `arg != arg or arg == +inf` ↦ arg; `arg < 0` ↦ quiet NaN;
+    otherwise the builtin, which GCC folds for every finite argument that is not negative (−0 included) -/
+def sqrtCt (f : Fmt) (b : Nat) : Nat :=
+  if !f.feq b b || f.feq b f.inf then b
+  else if f.lt b 0 then f.qnan
+  else FSpec.sqrt f b
 
 /-- `arg != arg` (the `isnan` alternative when the builtin is missing) -/
 def isnanFallback (f : Fmt) (b : Nat) : Bool := !f.feq b b
